@@ -534,6 +534,12 @@ def slope_one(env, form, ys, xs):
     vals = list(ys) + list(xs)
     if form == 'a':
         args, vars_ = [lit(v) for v in vals], {}
+    elif form == 'h2':      # the usual spelling: known ys, known xs as two ranges
+        args, vars_ = ['ys', 'xs'], {'ys': list(ys), 'xs': list(xs)}
+    elif form == 'c2':
+        args, vars_ = ['ys', 'xs'], {'ys': [[v] for v in ys], 'xs': [[v] for v in xs]}
+    elif form == 'l2':
+        args, vars_ = ['{%s}' % ','.join(lit(v) for v in ys), '{%s}' % ';'.join(lit(v) for v in xs)], {}
     else:
         vars_ = dict((sname(i), v) for i, v in enumerate(vals))
         args = [sname(i) for i in range(len(vals))]
@@ -560,7 +566,7 @@ class Slope(Sub):
 
     def cases(self, tier, unit):
         for ys in lists_over(V, 2):
-            yield ['ys', ys, 'V', ['a', 's']]
+            yield ['ys', ys, 'V', ['a', 's', 'h2', 'c2', 'l2']]
         for ys in lists_over(V, 3):
             if tier == 'quick':
                 yield ['ys', ys, 'V4', ['a']]
@@ -588,7 +594,7 @@ class Slope(Sub):
             if delicate:
                 _REL[0] = 1e-6
             try:
-                for form in ('a', 's'):
+                for form in ('a', 's', 'h2', 'c2'):
                     f = slope_one(env, form, ys, xs)
                     if f:
                         out.append(f)
@@ -630,15 +636,21 @@ def crit_holds(crit, cell):
             break
     num = Fraction(rest) if NUM_RE.match(rest) else None
     if op is not None:
+        if num is not None and op != '<>' and not is_number(cell):
+            return False        # a text, logical or blank cell does not satisfy a comparison with a number
         if num is None or not is_number(cell):
             raise ValueError('outside the checked criteria domain: %r on %r' % (crit, cell))
         c = fr(cell)
         return {'<>': c != num, '>=': c >= num, '<=': c <= num, '>': c > num, '<': c < num, '=': c == num}[op]
     if num is not None:
         if not is_number(cell):
+            if isinstance(cell, str) and not NUM_RE.match(cell) or cell is None or isinstance(cell, bool):
+                return False    # ... nor is it equal to one (numeric TEXT in a cell stays undemanded)
             raise ValueError('outside the checked criteria domain: %r on %r' % (crit, cell))
         return fr(cell) == num
     if not isinstance(cell, str):
+        if is_number(cell) or cell is None or isinstance(cell, bool):
+            return False        # a number, logical or blank cell does not match a text pattern
         raise ValueError('outside the checked criteria domain: %r on %r' % (crit, cell))
     if '*' in rest or '?' in rest:
         return wild(rest, cell)
@@ -914,6 +926,34 @@ def number_of(o):
     return None
 
 
+class CriteriaMixed(CritBase):
+    name = 'c11.criteria_mixed'
+    rule = ('criteria ranges that mix kinds of cells (a header text above numbers, a logical, a blank): every list of length '
+            '2..3 over {1, 2.5, -1, "a", "x2", TRUE, blank} x criteria {>0, <2, >=2.5, <=1, =1, 1, a, x*, ?} x COUNTIF, SUMIFS, '
+            'AVERAGEIFS, MAXIFS over numeric value lists, as host lists, columns and rows: a cell of another kind than the '
+            'criterion simply is not selected; non-trivial = proper non-empty selection')
+    min_cases = 100
+    min_nontrivial = 1000
+    min_classes = 6
+    MIXED = [1, 2.5, -1, 'a', 'x2', True, None]
+    CRITS = ['>0', '<2', '>=2.5', '<=1', '=1', '1', 'a', 'x*', '?']
+
+    def cases(self, tier, unit):
+        for n in (2, 3):
+            for c in lists_over(self.MIXED, n):
+                if len(set(type(x) for x in c)) > 1:
+                    yield ['m', c]
+
+    def expand(self, env, case):
+        c = case[1]
+        n = len(c)
+        for crit in self.CRITS:
+            for form in ('h', 'c', 'w'):
+                yield 'COUNTIF', form, [c], [crit], None
+                for fn in ('SUMIFS', 'AVERAGEIFS', 'MAXIFS'):
+                    yield fn, form, [c], [crit], MIX[:n]
+
+
 class CriteriaBrackets(CriteriaText):
     """* and ? are the only wildcards: brackets and ! in a criterion are ordinary characters (a glob library reads
     [..] as a character class)"""
@@ -1057,5 +1097,5 @@ class StatSiblings(Siblings):
     ]
 
 
-SUBS = [Definitions(), Regrouping(), Large(), LongLists(), Slope(), CriteriaNumeric(), CriteriaText(), CriteriaBrackets(), Scale(),
+SUBS = [Definitions(), Regrouping(), Large(), LongLists(), Slope(), CriteriaNumeric(), CriteriaText(), CriteriaBrackets(), CriteriaMixed(), Scale(),
         ErrorItems(), AggWholeFloats(), StatSiblings()]
